@@ -23,6 +23,10 @@ type renderCfg struct {
 	PrevLen int   `json:"prevLen"`
 	Rows    []int `json:"rows"`
 	Msink   bool  `json:"msink"`
+	// components of Tpl (Tpl = TplStatic + ValLen + (ErrLen > 0 ? ErrLen+1 : 0)); all zero = Tpl is plain template text
+	TplStatic int `json:"tplstatic"`
+	ErrLen    int `json:"errlen"`
+	ValLen    int `json:"vallen"`
 }
 
 type renderCase struct {
@@ -68,8 +72,21 @@ func renderFamily(c renderCfg, maxidx int) renderEvent {
 		rows[i] = strings.Repeat(string(rune('a'+i%26)), l)
 	}
 	content := strings.Join(rows, "\n")
-	static := strings.Repeat("T", c.Tpl-1) + "\n"
-	tpl := static + "{{.data}}"
+	ts := c.TplStatic
+	if ts == 0 {
+		ts = c.Tpl
+	}
+	val := strings.Repeat("V", c.ValLen)
+	errText := strings.Repeat("E", c.ErrLen)
+	tpl := strings.Repeat("T", ts-1) + "\n{{.data}}"
+	static := strings.Repeat("T", ts-1) + "\n"
+	if c.ValLen > 0 {
+		tpl = strings.Repeat("T", ts-1) + "{{.val}}\n{{.data}}"
+		static = strings.Repeat("T", ts-1) + val + "\n"
+	}
+	if c.ErrLen > 0 {
+		static = errText + "\n" + static
+	}
 	nextSel, nextTitle := entry(c.NextLen, "11")
 	prevSel, prevTitle := entry(c.PrevLen, "22")
 	ordSel, ordTitle := entry(c.Menu, "0")
@@ -101,6 +118,15 @@ func renderFamily(c renderCfg, maxidx int) renderEvent {
 			pg := render.NewPage(ca, rs).WithMenu(mn).WithSizer(szr)
 			if err := pg.Map("data"); err != nil {
 				panic(err)
+			}
+			if c.ValLen > 0 {
+				ca.Add("val", val, uint16(c.ValLen+2))
+				if err := pg.Map("val"); err != nil {
+					panic(err)
+				}
+			}
+			if c.ErrLen > 0 {
+				pg = pg.WithError(fmt.Errorf("%s", errText))
 			}
 			out, rerr = pg.Render(context.Background(), "node", uint16(idx))
 		}()
@@ -179,7 +205,17 @@ func cmdRenderRandom(args []string) error {
 	rng := rand.New(rand.NewSource(seed()))
 	kinds := map[string]int{}
 	for i := 0; i < n; i++ {
-		c := renderCfg{Size: 12 + rng.Intn(289), Tpl: 1 + rng.Intn(30)}
+		c := renderCfg{Size: 12 + rng.Intn(289), TplStatic: 1 + rng.Intn(30)}
+		if rng.Intn(3) == 0 {
+			c.ErrLen = 1 + rng.Intn(30)
+		}
+		if rng.Intn(3) == 0 {
+			c.ValLen = 1 + rng.Intn(12)
+		}
+		c.Tpl = c.TplStatic + c.ValLen
+		if c.ErrLen > 0 {
+			c.Tpl += c.ErrLen + 1
+		}
 		if rng.Intn(2) == 0 {
 			c.Menu = 3 + rng.Intn(20)
 		}
